@@ -16,11 +16,16 @@ const (
 	pktHeaderLen = 8
 	headerLen    = 16
 	preambleLen  = 36
+
+	// the record length field is 16 bits wide and includes the record header.
+	maxPayloadLen = 0xFFFF - pktHeaderLen
 )
 
 var (
 	errMalformed = errors.New("malformed rtpdump")
 	errNotIPv4   = errors.New("rtpdump source address must be IPv4")
+
+	errPayloadTooLarge = errors.New("rtpdump payload exceeds 65527 bytes")
 )
 
 // Header is the binary header at the top of the RTPDump file. It contains
@@ -91,6 +96,10 @@ type Packet struct {
 
 // Marshal encodes the Packet as binary.
 func (p Packet) Marshal() ([]byte, error) {
+	if len(p.Payload) > maxPayloadLen {
+		return nil, errPayloadTooLarge
+	}
+
 	packetLength := len(p.Payload)
 	if p.IsRTCP {
 		packetLength = 0
